@@ -46,7 +46,15 @@ pub fn verify_content(txn: &RoTxn, db: RawDb, world: &World, d: &Dump, cfg: &Cfg
         let queries = query::query_vectors(im, 2, cfg.query_seed ^ salt, Profile::Lattice, cfg.data_seed);
         let findings = with_metric!(im.metric, D, {
             match Reader::<D>::open(txn, im.index, query::typed::<D>(db)) {
-                Ok(reader) => query::c02_battery(txn, &reader, im, &queries, u32::MAX - 3, im.accurate, &mut qs),
+                Ok(reader) => {
+                    // what the reader says about itself must describe this very snapshot
+                    let ids: std::collections::BTreeSet<u32> = reader.item_ids().iter().collect();
+                    if ids != im.ids() || reader.n_items() != im.items.len() as u64 || reader.n_trees() != di.meta.as_ref().map_or(0, |m| m.roots.len()) || reader.dimensions() != im.dim {
+                        vec![("C08", "reader_state", format!("the reader reports {} items / {} trees / dimension {}, its snapshot holds {} items / {} trees / dimension {}", reader.n_items(), reader.n_trees(), reader.dimensions(), im.items.len(), di.meta.as_ref().map_or(0, |m| m.roots.len()), im.dim))]
+                    } else {
+                        query::c02_battery(txn, &reader, im, &queries, u32::MAX - 3, im.accurate, &mut qs)
+                    }
+                }
                 Err(e) => vec![("C06", "open", format!("{e}"))],
             }
         });
